@@ -367,7 +367,9 @@ def c01(tier, seed, work):
     a2, i2 = suite_for(seed, 5)
     d = 2 if tier == "quick" else 3
     return add_console(res, work, [dict(name="c01-retry-s", insess=True, cmds="CmdsAR", maxcalls=2, maxatt=d, kinds="KindsRetry", auth=a, integ=i),
-                                   dict(name="c01-forge-s", insess=True, cmds="CmdsAB", maxcalls=2, maxatt=d, kinds="KindsForge", auth=a2, integ=i2)],
+                                   # (the forge alphabet has seven kinds: three attempts x two calls is beyond what TLC enumerates in time)
+                                   dict(name="c01-forge-s", insess=True, cmds="CmdsAB", maxcalls=2, maxatt=2, kinds="KindsForge", auth=a2, integ=i2,
+                                        codes="Codes3" if tier == "quick" else "CodesOkErr")],
                        "In-session commands under every outcome sequence of Console.tla (busy, garbage, bad signature, wrong pad, forged): "
                        "every datagram the BMC receives, first or repeated, must verify under the BMC-side K1 and decrypt under K2.")
 
